@@ -23,6 +23,43 @@ CHECKS = {
              "enabled(), max_log_level()).",
         note=TLC_BASE + "; names over {a,b,:} from a curated pool, <= 2 loggers (quick), 121 targets of length <= 4",
         design="7/C01"),
+    "C02": dict(
+        category="model_checking",
+        technique="TLA+ spec (LevelGate.tla + Routing.tla) model-checked by TLC; every init/set_config transition "
+                  "replayed in child processes through the log facade (spec->impl conformance)",
+        text="LevelGate.tla makes the facade's global maximum explicit state next to the installed configuration; "
+             "TLC checks GlobalMaxExact / FacadeNeverHides / MacrosReachRouting over all histories of the pool. "
+             "Every (previous, next) configuration pair is then walked in real child processes (init_config, "
+             "init_config_with_err_handler, init_raw_config; Handle::set_config) and after each step "
+             "log::max_level(), Log::enabled and what log::log! delivers are compared for every target and level; "
+             "long seeded histories through Routing.tla's configuration space add breadth. The static part "
+             "(max_log_level(), enabled() for 162k configurations) is also compared by the C01 replay.",
+        note=TLC_BASE + "; sequential reconfigurations only; 10-configuration pool for exhaustive pairs, "
+             "12k (quick) / 42k (thorough) sampled configurations for the long histories",
+        design="7/C02"),
+    "C03": dict(
+        category="model_checking",
+        technique="TLA+ spec (Fanout.tla) model-checked by TLC; every behaviour replayed with scripted "
+                  "Filter/Append implementations on the real Logger (spec->impl conformance)",
+        text="Fanout.tla models the fan-out as one action per filter consultation / append call / handler call. TLC "
+             "checks ChainLaw, ShortCircuit and HandlerOncePerError for every assignment of chains (all sequences "
+             "over Accept/Neutral/Reject up to length 3) and Ok/Err outcomes, with an appender attached twice; each "
+             "case is replayed on log4rs::Logger with scripted filters that record every call, and the real "
+             "ThresholdFilter is compared on all 6x5 level pairs.",
+        note=TLC_BASE + "; 2 appenders x chains <= 3 (quick), 3 appenders x chains <= 2 (thorough)",
+        design="7/C03"),
+    "C13": dict(
+        category="model_checking",
+        technique="TLA+ spec (ConfigBuild.tla) model-checked by TLC; every builder input replayed through "
+                  "Config::builder().build / build_lossy (spec->impl conformance)",
+        text="ConfigBuild.tla gives the declarative meaning of well-formed / lossy result / error set and the "
+             "three-pass machine the code implements; TLC checks StrictIff, ErrorsNameExactlyOffenders, "
+             "LossyIsValidSubsequence, AcceptedIsInstallable for every input of the bound and NameLaw for all 1093 "
+             "strings <= 6 over {a,b,:}; each input is replayed on the real builders (strict and lossy), the error "
+             "set compared as must/may sets, and every returned Config installed and logged through under "
+             "catch_unwind.",
+        note=TLC_BASE + "; name validity follows the code's reading (colon runs of length exactly 2)",
+        design="7/C13"),
 }
 
 NOT_YET = "check not built yet in this round (planned, see DESIGN.md section 7)"
